@@ -128,6 +128,20 @@ def make_inputs(ctx):
                     r[0] = rng.choice([0, 1, -1, 12345] if 'Min' in name else [-22222, 22627, 0, 1])
                 rows[-1][0] = 32767 if 'com_i16' in name else rows[-1][0]      # last row: radicand < 0 -> NaN
         cats.append(spec)
+    # stored values of realistic size: velocities are kept in units of VelZSpace_to_kms and positions / radii in units of the
+    # box, so the raw numbers are small (1e-3 and below): anything absolute (a tolerance, an epsilon, a clip) that is harmless in
+    # km/s or Mpc/h bites here, above all with convert_units=False
+    for (b, z) in [(2000.0, 30000.0)]:
+        spec = dict(box=b, zkms=z, nrows=nrows, halo=hs.gen_values(rng, hs.raw_schema(), nrows),
+                    cleaned=hs.gen_values(rng, hs.cleaned_schema(), nrows), kind='small-stored')
+        for src in (spec['halo'], spec['cleaned']):
+            for name, rows in src.items():
+                sch = hs.raw_schema().get(name) or hs.cleaned_schema().get(name)
+                if sch and sch[0] == 'float32':
+                    for r in rows:
+                        for k in range(len(r)):
+                            r[k] = r[k] * 2.0 ** -12          # a power of two: every later product stays exact
+        cats.append(spec)
     for (b, z) in lcs:
         cats.append(dict(box=b, zkms=z, nrows=nrows, halo=hs.gen_values(rng, hs.lc_schema(), nrows), cleaned=None,
                          lc=True, kind='lc'))
